@@ -132,7 +132,7 @@ class SimSocket:
         self.type = type
         self.proto = proto
         self._fd = next(SimSocket._fds)
-        self._timeout = None
+        self._timeout = _socket.getdefaulttimeout()
         self._closed = False
         self.conn = conn
         self.net = net
